@@ -35,7 +35,7 @@ func storedPathsOf(t int32) []uint64 {
 // randMask draws a level mask of height h: full, leaf-only or partial
 func (g *G) randMask(h int) int32 {
 	top := int32(1) << uint(h)
-	switch g.intn(4) {
+	switch g.intn(5) {
 	case 0:
 		return top<<1 - 1
 	case 1:
@@ -45,6 +45,13 @@ func (g *G) randMask(h int) int32 {
 			return top
 		}
 		return (top<<1 - 1) &^ (1 << uint(g.intn(h)))
+	case 3: // only a few deep levels stored (nothing shallow)
+		t := top
+		for k := 0; k < 1+g.intn(3) && h > 0; k++ {
+			lv := h - 1 - g.intn(min(h, 6))
+			t |= 1 << uint(lv)
+		}
+		return t
 	default:
 		return top | int32(g.r.Int63())&(top-1)
 	}
@@ -94,6 +101,18 @@ func init() {
 				g.emit("p2il %d %d", t, p)
 				if t&(1<<uint(l)) != 0 {
 					g.emit("p2i %d %d", t, p)
+					// the shallowest stored level, with a long prefix
+					for lv := 0; lv <= h; lv++ {
+						if t&(1<<uint(lv)) != 0 {
+							pf := g.r.Uint64() & (1<<uint(lv) - 1)
+							if lv > 0 && g.intn(2) == 0 {
+								pf |= 1 << uint(lv-1)
+							}
+							g.emit("p2i %d %d", t, mkPath(h, lv, pf))
+							g.emit("p2il %d %d", t, mkPath(h, lv, pf))
+							break
+						}
+					}
 				} else {
 					// move to a stored level by shortening or lengthening the prefix
 					for l2 := l; l2 <= h; l2++ {
@@ -157,6 +176,29 @@ func init() {
 					g.emit("allpaths %d %d %d", t, (top-uint64(g.intn(20)))<<32, []uint64{1 << 63, ^uint64(0), (top + 1) << 32}[g.intn(3)])
 				}
 			}
+		}
+		if g.thorough() {
+			const h = 17
+			t := int32(1)<<(h+1) - 1
+			bm := make([]uint64, (int(t)+63)/64)
+			// pre-order index of node n in a full tree: sum over its branch bits (see bmtree.go)
+			idxOf := func(l int, pfx uint64) int {
+				idx := 0
+				for d := 0; d < l; d++ {
+					idx++
+					if pfx>>(uint(l-1-d))&1 == 1 {
+						idx += int(t) >> uint(d+1)
+					}
+				}
+				return idx
+			}
+			for _, n := range [][2]uint64{{1, 1}, {1, 0}, {2, 1}, {2, 2}, {2, 3}, {3, 5}, {17, 1 << 16}, {17, 1<<16 - 1}, {17, 1<<17 - 1}, {16, 1 << 15}, {0, 0}} {
+				i := idxOf(int(n[0]), n[1])
+				bm[i/64] |= 1 << uint(i%64)
+			}
+			g.emit("decode %d %s", t, showU64s(bm))
+			t2 := int32(1)<<h | 1<<16 | 1<<1 | 1
+			g.emit("decode %d %s", t2, showU64s(g.words((int(t2)+63)/64, true)))
 		}
 		for h := maxH + 1; h <= g.n(9, 12); h++ {
 			for rep := 0; rep < g.n(4, 10); rep++ {
